@@ -127,6 +127,18 @@ main(int argc, char** argv)
       printf("ring requests=2");
       if (bad) printf(" SPEC-FAIL:fault-handling-%d", bad);
       printf(" | null=%d\n", nulls);
+    } else if (!strcmp(tok[0], "ringbad") && n == 2) {
+      // a size zix_ring_new must refuse (0, above 2^31): NULL, and nothing may stay allocated whatever it tried first
+      const uint32_t size = (uint32_t)strtoul(tok[1], NULL, 16);
+      int bad = 0;
+      v_alloc_reset(&va);
+      ZixRing* r = zix_ring_new(&va.base, size);
+      if (r) { bad |= 2; zix_ring_free(r); }
+      if (v_alloc_outstanding(&va)) bad |= 8;
+      if (va.n_errors) bad |= 16;
+      printf("ringbad");
+      if (bad) printf(" SPEC-FAIL:refused-size-handling-%d", bad);
+      printf(" | requests=%ld\n", va.n_requests);
     } else puts("bad-op");
     free(a); free(b);
   }
